@@ -260,11 +260,36 @@ def image_streams(prop):
         if tier == "quick":
             return [(["image", "full", str(seed), "120"], c),
                     (["image", "big", str(seed), "1"], c),
-                    (["image", "fullx", str(seed + 7), "60"], c, {"avx2": True})]
+                    (["image", "fullx", str(seed), "60"], c, {"avx2": True})]
         return [(["image", "full", str(seed), "3000"], c),
                 (["image", "big", str(seed), "4"], c),
-                (["image", "fullx", str(seed + 7), "1500"], c, {"avx2": True})]
+                (["image", "fullx", str(seed), "1500"], c, {"avx2": True})]
     return streams
+
+
+def c05_cross_build(records):
+    """Images and token streams must be interchangeable between the portable and the AVX2 build:
+    the streams `image full <seed>` (portable) and `image fullx <seed>` (AVX2) generate the same
+    dictionaries; their image bytes (matrix/raw kinds; the dual connector's template split is
+    hash-order dependent) and the tokens of the probe sentences (all kinds) must coincide."""
+    port, avx = {}, {}
+    for idx, hargs, cid, extra in records:
+        f = pflags(extra)
+        if "IMGFNV" not in f:
+            continue
+        (avx if " fullx " in " " + hargs + " " else port)[cid] = f
+    out = []
+    for cid, a in avx.items():
+        p = port.get(cid)
+        if not p:
+            continue
+        if p.get("TOKFNV") != a.get("TOKFNV") and p.get("KIND") == a.get("KIND"):
+            out.append(("portable-avx2-tokens-differ", "the same dictionary tokenizes differently in the portable and the AVX2 build",
+                        f"image case {cid}: portable {p} / avx2 {a}"))
+        elif p.get("KIND") in ("0", "1") and p.get("KIND") == a.get("KIND") and p.get("IMGFNV") != a.get("IMGFNV"):
+            out.append(("portable-avx2-image-differs", "the same dictionary is written as different bytes by the portable and the AVX2 build",
+                        f"image case {cid}: portable {p} / avx2 {a}"))
+    return out[:3]
 
 
 CODEC_TB = ["bincode 2 wire format (little endian, fixed-int) modelled for the types used; validated by byte-exact re-encoding of real images",
@@ -701,6 +726,7 @@ PROPS = {
                      "Vibrato.C05.rewrite_same_bytes", "Vibrato.C05.behaviour_congr", "Vibrato.C05.accepted_is_wf",
                      "Vibrato.C05.reread_accepted", "Vibrato.C05.write_len", "Vibrato.C05.lane_repr_irrelevant"],
         "streams": image_streams("C05"),
+        "post_check": c05_cross_build,
         "rule": "dictionaries of all three connector kinds built from generated sources, then a random history of "
                 "{load user lexicon, map ids, write/read}; the whole image is decoded and re-encoded by the Lean model "
                 "(byte-exact comparison via length + FNV-64 + first differing offset) and the reloaded dictionary is "
